@@ -89,6 +89,17 @@ if __name__ == "__main__":
     os.makedirs(OUT, exist_ok=True)
     corpus = os.path.join(OUT, "corpus")
     os.makedirs(corpus, exist_ok=True)
+    # starting corpus: pseudo-random byte strings of 0.25-4 KB (a hash chain of the seed: reproducible), which Hypothesis turns into cases of ordinary size;
+    # without them libFuzzer starts from the empty input and spends a short campaign on the smallest cases only
+    import hashlib
+    for i in range(48):
+        n = [256, 512, 1024, 2048, 4096][i % 5]
+        buf, j = b"", 0
+        while len(buf) < n:
+            buf += hashlib.sha256(b"%d-%d-%d-%s-%s" % (SEED, i, j, PROP.encode(), CLAUSE.encode())).digest()
+            j += 1
+        with open(os.path.join(corpus, "seed-%02d" % i), "wb") as fh:
+            fh.write(buf[:n])
     flush()
-    atheris.Setup([sys.argv[0], "-runs=%d" % RUNS, "-seed=%d" % (SEED or 1), "-max_len=2048", "-verbosity=0", "-print_final_stats=0", corpus], TestOneInput)
+    atheris.Setup([sys.argv[0], "-runs=%d" % RUNS, "-seed=%d" % (SEED or 1), "-max_len=4096", "-verbosity=0", "-print_final_stats=0", corpus], TestOneInput)
     atheris.Fuzz()
